@@ -49,6 +49,9 @@ rule "c" salience 5 begin
   return "c"
 end
 rule "d" salience 3 begin
+  k2(1, 2)
+  Obj.K(3, 4.5)
+  Obj.Sub.K(5, 6)
   return L[0]
 end
 `
@@ -74,9 +77,18 @@ type raceReq struct {
 }
 type raceResp struct{ Id int64 }
 
+// stateless callees with numeric parameters (argument conversion paths)
+type raceSub struct{}
+
+func (s *raceSub) K(a int8, b uint16) int { return int(a) }
+
+type raceObj struct{ Sub *raceSub }
+
+func (o *raceObj) K(a uint32, b float64) int { return int(a) }
+
 // raceDriver is run inside the -race binary (worker mode "race").
 func raceDriver(iter int) {
-	apis := map[string]interface{}{"u2": func(x int64) int64 { return x * 2 }}
+	apis := map[string]interface{}{"u2": func(x int64) int64 { return x * 2 }, "k2": func(a int, b float32) int { return a }, "Obj": &raceObj{Sub: &raceSub{}}}
 	// 1. engine models on one shared compiled rule set, each call with its own engine + data context
 	rb0 := builder.NewRuleBuilder(context.NewDataContext())
 	if err := rb0.BuildRuleFromString(raceRules); err != nil {
@@ -90,6 +102,8 @@ func raceDriver(iter int) {
 			for i := 0; i < iter; i++ {
 				dc := context.NewDataContext()
 				dc.Add("u2", apis["u2"])
+				dc.Add("k2", apis["k2"])
+				dc.Add("Obj", apis["Obj"])
 				dc.Add("req", &raceReq{Id: int64(gi*1000 + i)})
 				dc.Add("resp", &raceResp{})
 				dc.Add("M", map[string]int64{})
